@@ -563,3 +563,33 @@ func VerifC16_q_afterPolicyChange() {
 	verifReach("policy-changed")
 	w.checkSemantics()
 }
+
+// BOUND: same cluster and flows; the node is synchronised for a policy of one of the shapes of the convergence harness (quick: 5, thorough: 9); then a pod of another node (api in ns1 or web2 in ns2) is deleted and its event delivered through the informer handler (DeletePod), optionally followed by a new pod with other labels (role=batch) that comes up on the other node with the same address (AddPod / UpdatePod); no policy event and no full synchronisation follows. The verdicts must match the reference for the cluster as it is now (an address no longer belongs to a peer once its pod is gone)
+func VerifC16_q_afterPodChange() {
+	w := vSemWorld()
+	w.c.policies = []*networkv1.NetworkPolicy{vShapeOf("np-a")}
+	w.syncAll()
+	victim := nondetPick("api", "web2")
+	var old *corev1.Pod
+	var rest []*corev1.Pod
+	for _, p := range w.c.pods {
+		if p.Name == victim {
+			old = p
+		} else {
+			rest = append(rest, p)
+		}
+	}
+	if old == nil {
+		return
+	}
+	w.c.pods = rest
+	_ = w.pm.DeletePod(old)
+	if nondetBool() {
+		np := vPod(old.Namespace, "batch", old.Status.PodIP, old.Spec.NodeName, map[string]string{"role": "batch"})
+		w.c.pods = append(w.c.pods, np)
+		_ = w.pm.AddPod(np)
+		_ = w.pm.UpdatePod(np, np)
+	}
+	verifReach("remote-pod-changed")
+	w.checkSemantics()
+}
